@@ -271,6 +271,10 @@ structure DState where
   cfg : Cfg := { steps := [] }
   st : State := initState
   run : Runner := { st := initState }
+  autoIds : AutoIds := []
+
+def autoIdEntry : P ((Nat × Option Nat) × Nat) := do
+  let ty ← nat; let rq ← optNat; let w ← nat; pure ((ty, rq), w)
 
 def tokens (s : String) : List String := (s.splitOn " ").filter (· ≠ "")
 
@@ -383,14 +387,20 @@ def step (d : DState) (line : String) : DState × String :=
       let h := es.foldl (collectRound ex) {}
       (d, s!"B {sList sEv h.buffer} R {sList (sList sEv) h.returned} D {sList sEv h.dropped}")
     | _ => (d, "bad-op")
+  -- the naming of default waiter ids: autoids <n> (<ty> <req|_> <id>)*
+  | "autoids" :: ts =>
+    match counted autoIdEntry ts with
+    | some (t, []) => if AutoIds.wellFormed t then ({ d with autoIds := t }, s!"ok {t.length}") else (d, "not-injective")
+    | _ => (d, "bad-op")
   | "WE" :: ts =>
-    match (do let ws ← counted waiter; let wid ← nat; let ty ← nat; let we ← opt ev; let rq ← optNat
+    match (do let ws ← counted waiter; let wid ← optNat; let ty ← nat; let we ← opt ev; let rq ← optNat
               let tmo ← optNat; pure (ws, wid, ty, we, rq, tmo)) ts with
-    | some ((ws, wid, ty, we, rq, tmo), []) =>
-      match waitForEvent ws wid ty we rq tmo with
-      | .timeout => (d, "timeout " ++ sList sTick.sRes (WaitOut.results wid .timeout))
-      | .waiting a => (d, "waiting " ++ sTick.sRes a)
-      | .got e => (d, "got " ++ sEv e ++ " " ++ sList sTick.sRes (WaitOut.results wid (.got e)))
+    | some ((ws, wid?, ty, we, rq, tmo), []) =>
+      match waitForEventAuto d.autoIds ws wid? ty we rq tmo with
+      | none => (d, "no-default-id")
+      | some (wid, .timeout) => (d, "timeout " ++ sList sTick.sRes (WaitOut.results wid .timeout))
+      | some (_, .waiting a) => (d, "waiting " ++ sTick.sRes a)
+      | some (wid, .got e) => (d, "got " ++ sEv e ++ " " ++ sList sTick.sRes (WaitOut.results wid (.got e)))
     | _ => (d, "bad-op")
   | ["rend"] => (d, sOutcome d.run.outcome ++ " ;; " ++ sList sPub d.run.stream)
   | ["rstream"] => (d, sList sPub d.run.stream)
